@@ -1835,7 +1835,10 @@ impl<'de, R: Read<'de>> de::SeqAccess<'de> for DescribedAccess<'_, R> {
                 // list headers
                 if self.counter == 0 {
                     if let StructEncoding::DescribedList = self.de.struct_encoding {
-                        self.field_count += self.consume_list_header()?;
+                        self.field_count = self
+                            .field_count
+                            .checked_add(self.consume_list_header()?)
+                            .ok_or(Error::InvalidValue)?;
                     }
                 }
                 result
@@ -1875,7 +1878,10 @@ impl<'de, R: Read<'de>> de::MapAccess<'de> for DescribedAccess<'_, R> {
                 let result = seed.deserialize(self.as_mut()).map(Some);
                 if self.counter == 0 {
                     if let StructEncoding::DescribedMap = self.de.struct_encoding {
-                        self.field_count += self.consume_map_header()?;
+                        self.field_count = self
+                            .field_count
+                            .checked_add(self.consume_map_header()?)
+                            .ok_or(Error::InvalidValue)?;
                     }
                 }
                 result
